@@ -61,25 +61,26 @@ Record Inv (c0 : Z) (n : nat) (s : state) : Prop := {
 }.
 
 Lemma cache_settle p c r : cache (settle p c r) = c.
-Proof. revert r; induction p as [|o p IH]; intros r; cbn; [reflexivity|]. destruct o; [|reflexivity]. destruct (c =? inval); [reflexivity | apply IH]. Qed.
+Proof. revert r; induction p as [|o p IH]; intros r; cbn [settle]; [reflexivity|]. destruct o; [|reflexivity]. destruct (c =? inval); [reflexivity | apply IH]. Qed.
 
 Lemma settle_ok c0 k p c r :
   (c = inval -> r = []) -> (forall e, In e r -> e = (r_tid, c)) -> (c <> inval -> c0 <= c < k) ->
   thread_ok c0 k (settle p c r).
 Proof.
-  revert r; induction p as [|o p IH]; intros r H1 H2 H3; cbn.
-  - repeat split; cbn; auto. discriminate.
-  - destruct o; cbn.
+  revert r; induction p as [|o p IH]; intros r H1 H2 H3; cbn [settle].
+  - unfold thread_ok; cbn [tpc cache res]. split; [exact H1|]. split; [exact H2|]. split; [exact H3|discriminate].
+  - destruct o.
     + destruct (c =? inval) eqn:E.
-      * apply Z.eqb_eq in E. repeat split; cbn; auto.
-      * apply Z.eqb_neq in E. apply IH; auto.
+      * apply Z.eqb_eq in E. unfold thread_ok; cbn [tpc cache res]. split; [exact H1|]. split; [exact H2|]. split; [exact H3|intros _; exact E].
+      * apply Z.eqb_neq in E. apply IH.
         -- intros; contradiction.
-        -- intros e [<-|He]; auto.
-    + repeat split; cbn; auto. discriminate.
+        -- intros e [<-|He]; [reflexivity | apply H2; exact He].
+        -- exact H3.
+    + unfold thread_ok; cbn [tpc cache res]. split; [exact H1|]. split; [exact H2|]. split; [exact H3|discriminate].
 Qed.
 
 Lemma thread_ok_mono c0 k k' th : k <= k' -> thread_ok c0 k th -> thread_ok c0 k' th.
-Proof. intros L (a & b & c & d). repeat split; auto; specialize (c H); lia. Qed.
+Proof. intros L (a & b & c & d). split; [exact a|]. split; [exact b|]. split; [|exact d]. intros H. specialize (c H). lia. Qed.
 
 Lemma valid_settle p c r : valid (settle p c r) = (if c =? inval then 0 else 1).
 Proof. unfold valid. rewrite cache_settle. reflexivity. Qed.
@@ -99,16 +100,17 @@ Section Step.
               thread_ok c0 (ctr s) th' -> Inv c0 n (ST (ctr s) (set_nth (threads s) t th'))).
     { intros th' Ec Ok. constructor; cbn [ctr threads].
       - rewrite length_set_nth. exact L.
-      - unfold nvalid. rewrite (sumz_set_nth _ _ _ _ _ N). unfold valid at 2 3. rewrite Ec. fold (valid th).
-        unfold nvalid in C. unfold valid at 2. lia.
+      - unfold nvalid. rewrite (sumz_set_nth _ _ _ _ _ N).
+        assert (Ev : valid th' = valid th) by (unfold valid; rewrite Ec; reflexivity).
+        unfold nvalid in C. lia.
       - apply Forall_forall. intros y Hy. destruct (in_set_nth _ _ _ _ Hy) as [->|Hy']; [exact Ok | apply F'; exact Hy'].
       - intros i j a b Dij Ni Nj Va Vb.
         destruct (Nat.eq_dec i t) as [->|Di]; destruct (Nat.eq_dec j t) as [->|Dj]; try congruence.
         + rewrite (nth_error_set_nth_same _ _ _ _ N) in Ni. injection Ni as <-.
-          rewrite (nth_error_set_nth_other _ _ _ _ Dj) in Nj. rewrite Ec in *. eapply D; eauto.
+          rewrite (nth_error_set_nth_other _ _ _ _ Dj) in Nj. rewrite Ec in *. exact (D t j th b Dij N Nj Va Vb).
         + rewrite (nth_error_set_nth_same _ _ _ _ N) in Nj. injection Nj as <-.
-          rewrite (nth_error_set_nth_other _ _ _ _ Di) in Ni. rewrite Ec in *. eapply D; eauto.
-        + rewrite (nth_error_set_nth_other _ _ _ _ Di) in Ni. rewrite (nth_error_set_nth_other _ _ _ _ Dj) in Nj. eapply D; eauto. }
+          rewrite (nth_error_set_nth_other _ _ _ _ Di) in Ni. rewrite Ec in *. exact (D i t a th Dij Ni N Va Vb).
+        + rewrite (nth_error_set_nth_other _ _ _ _ Di) in Ni. rewrite (nth_error_set_nth_other _ _ _ _ Dj) in Nj. exact (D i j a b Dij Ni Nj Va Vb). }
     destruct (tpc th) eqn:P.
     - injection E as <- _ _. apply Same; [apply cache_settle | apply settle_ok; auto].
     - (* PFetch *) injection E as <- _ _.
@@ -140,7 +142,7 @@ Section Step.
         * rewrite (nth_error_set_nth_same _ _ _ _ N) in Nj. injection Nj as <-. rewrite cache_settle.
           rewrite (nth_error_set_nth_other _ _ _ _ Di) in Ni.
           destruct (F' _ (nth_error_In _ _ Ni)) as (_ & _ & R & _). specialize (R Va). lia.
-        * rewrite (nth_error_set_nth_other _ _ _ _ Di) in Ni. rewrite (nth_error_set_nth_other _ _ _ _ Dj) in Nj. eapply D; eauto.
+        * rewrite (nth_error_set_nth_other _ _ _ _ Di) in Ni. rewrite (nth_error_set_nth_other _ _ _ _ Dj) in Nj. exact (D i j a b Dij Ni Nj Va Vb).
     - injection E as <- _ _. apply Same; [apply cache_settle | apply settle_ok; auto].
     - discriminate.
   Qed.
@@ -153,7 +155,7 @@ Section Step.
       unfold nvalid. clear. induction progs as [|p r IH]; cbn [map sumz]; [reflexivity|]. rewrite IH.
       unfold valid. cbn [cache]. rewrite Z.eqb_refl. reflexivity.
     - apply Forall_forall. intros th Hth. apply in_map_iff in Hth. destruct Hth as [p [<- _]].
-      repeat split; cbn; auto; try contradiction. intros X. exfalso. apply X. reflexivity.
+      unfold thread_ok; cbn [tpc cache res]. split; [reflexivity|]. split; [intros e []|]. split; [intros X; exfalso; apply X; reflexivity | discriminate].
     - intros i j a b _ Ni _ Va _. apply nth_error_In in Ni. apply in_map_iff in Ni. destruct Ni as [p [<- _]].
       exfalso. apply Va. reflexivity.
   Qed.
@@ -208,7 +210,3 @@ Proof. vm_compute. split; reflexivity. Qed.
 Lemma corner_reach : reach step (init (2 ^ 64 - 1) [[OTid; OTid]]) corner_state.
 Proof. unfold corner_state, run_tid. apply run_reach. apply reach_refl. Qed.
 
-(* after the wrap two threads share an id: c0 = 2^64 - 2, thread 0 gets 2^64-2, thread 1 gets the sentinel and then 0 ... and a
-   process that really created 2^64 threads would hand 0 out again; the smallest executable witness of a duplicate uses
-   a start value just below the wrap and three threads: ids 2^64-2, (2^64-1, 0), 1 -- no duplicate yet; duplicates need the
-   counter to travel 2^64 steps, which no executable schedule does.  What IS executable: instability of the sentinel receiver. *)
